@@ -148,9 +148,14 @@ func TestReplay(t *testing.T) {
 		case "mapping-cap":
 			if c.Mode == "closer" {
 				roundMappingCloser(t, c)
+			} else if c.Mode == "api-quota" {
+				roundAPIQuota(t, c)
 			} else {
 				roundMappingCap(t, c)
 			}
+		case "mapping-index":
+			p := &vkit.Picks{List: c.Picks}
+			reportIndex(t, c, runIndexProg(c, p.Choose))
 		case "code-quota-history":
 			runHistory(t, nil, c)
 		case "code-quota", "mapping-quota":
